@@ -8,6 +8,9 @@ package grid
 // client abort after every prefix.
 
 import (
+	"encoding/base64"
+	"crypto/sha256"
+	"net"
 	"runtime/debug"
 	"os"
 	"bytes"
@@ -626,6 +629,10 @@ func TestC14(t *testing.T) {
 		c14Aborts(rep, mode)
 		return
 	}
+	if part == "origin" {
+		c14Origin(rep, f, mode)
+		return
+	}
 	switch part {
 	case "digests":
 		e.grpcDigestCells()
@@ -876,4 +883,65 @@ func (e *c14Env) leakCheckNoGC(cls, id string) {
 		e.rep.Violate("C14 "+cls+" request left a goroutine or a reservation behind", fmt.Sprintf("after %s: %d goroutines still inside repository request code (baseline %d), reserved=%d; one of them:\n%s", id, g, e.baseG, reserved, stack), nil)
 		e.baseG = g
 	}
+}
+
+// c14Origin: Remote Asset FetchBlob against an origin that answers with every
+// status class x body shape: 200 / 403 / 404 / 500 / 503 x {no body, 10 bytes,
+// 100 KiB} x {Content-Length, chunked} x with / without a checksum qualifier
+// (matching and not matching). After every cell (three requests) the origin
+// must not be holding a connection that the cache has not given back (idle
+// pooled connections are closed first), and the usual leak oracle applies.
+func c14Origin(rep *vlib.Report, f *fx, mode string) {
+	e := &c14Env{rep: rep, f: f, mode: mode}
+	f.settle()
+	time.Sleep(30 * time.Millisecond)
+	e.baseG, _ = handlerGoroutines()
+	o := origin()
+	ctr := 0
+	for _, st := range []int{200, 403, 404, 500, 503} {
+		for _, n := range []int{0, 10, 100 << 10} {
+			for _, chunked := range []bool{false, true} {
+				for _, qual := range []string{"none", "matching", "other"} {
+					ctr++
+					body := vlib.Bytes(fmt.Sprintf("c14/origin/%s/%d", mode, ctr), n, false)
+					ob := originObj{body: body, declLen: n, status: st}
+					if chunked {
+						ob.declLen = -1
+					}
+					url := o.put(fmt.Sprintf("/c14origin/%d", ctr), ob)
+					var qs []*asset.Qualifier
+					switch qual {
+					case "matching":
+						qs = []*asset.Qualifier{{Name: "checksum.sri", Value: "sha256-" + sriOf(body)}}
+					case "other":
+						qs = []*asset.Qualifier{{Name: "checksum.sri", Value: "sha256-" + sriOf([]byte("something else"))}}
+					}
+					id := fmt.Sprintf("mode=%s origin answers %d with %d body bytes (chunked=%v), checksum qualifier %s", mode, st, n, chunked, qual)
+					for rpt := 0; rpt < 3; rpt++ {
+						e.run("FetchBlob-origin", fmt.Sprintf("%s #%d", id, rpt), false, func(ctx context.Context) (bool, string) {
+							r, err := f.fetch.FetchBlob(ctx, &asset.FetchBlobRequest{Uris: []string{url}, Qualifiers: qs})
+							if err != nil {
+								return false, grpcStatus(err)
+							}
+							return r.GetStatus().GetCode() == 0, fmt.Sprintf("status %d", r.GetStatus().GetCode())
+						})
+					}
+					if ok := waitFor(func() bool { return o.openConns() == 0 }); !ok {
+						rep.Violate("C14 FetchBlob-origin connection to the origin not given back", fmt.Sprintf("%s: after three requests (idle pooled connections closed) the origin still holds %d connection(s) open", id, o.openConns()), nil)
+						// one report is enough (every further leaking cell would wait for its cap)
+						o.mu.Lock()
+						o.open = map[net.Conn]bool{}
+						o.mu.Unlock()
+						return
+					}
+					e.leakCheck("FetchBlob-origin", id)
+				}
+			}
+		}
+	}
+}
+
+func sriOf(b []byte) string {
+	h := sha256.Sum256(b)
+	return base64.StdEncoding.EncodeToString(h[:])
 }
